@@ -12,6 +12,8 @@ import MW.Spec.KV
 import MW.Lemmas.KvDelete
 import MW.Lemmas.KvIterW
 import MW.Lemmas.KvSnapshot
+import MW.Lemmas.KvHandlesRefine
+import MW.Lemmas.KvIterRyw
 namespace MW.Props.C11
 open MW MW.KV MW.Model.KV
 
@@ -261,5 +263,227 @@ example :
 /-- recursive bucket deletion: with the budget DeleteBucket computes it never runs out of fuel,
     removes the bucket, every bucket below it and all their entries, and nothing else -/
 theorem deleteBucket_total : DeleteSpec := deleteSpec
+
+/-! ## 7. round 4 — what callers keep across operations: bucket handles, BucketMeta / FetchBucket, and
+    a read transaction after its end (model MW.Model.KVHandles, specification MW.Spec.KVX) -/
+
+/-- `handle_follows_path`: a method called on a KEPT bucket handle `hb` – obtained at any earlier
+    time for bucket `p` – does exactly what the same operation does when it navigates again from the
+    transaction to `p ++ rel`, whenever navigation finds bucket `p` now (also when `p` or an ancestor
+    was deleted and created again meanwhile: a handle is its path). -/
+theorem handle_follows_path {tx : Tx} {p : Path} {hb : Bucket} (h : nav tx p = some hb) (op : Op)
+    (hs : Spec.KV.viaShapeOK op = true) (hsl : slotOf op ≠ none) :
+    dataOpVia tx hb op = dataOp tx (Spec.KV.reroot p op) :=
+  dataOpVia_eq h op hs hsl
+
+-- non-trivial instance: the handle of bucket a/b after `a/b` was deleted and created again
+example :
+    let tx0 : Tx := { readOnly := false, db := [] }
+    let tx1 := (dataOp tx0 (.create .w [[97]])).2
+    let tx2 := (dataOp tx1 (.create .w [[97], [98]])).2
+    let hb := (nav tx2 [[97], [98]]).getD { name := [], path := [], depth := 0 }
+    let tx3 := (dataOp tx2 (.delb .w [[97], [98]])).2
+    let tx4 := (dataOp tx3 (.create .w [[97], [98]])).2
+    nav tx4 [[97], [98]] = some hb ∧ nav tx3 [[97], [98]] = none := by decide +kernel
+
+/-- `fetchBucket_cache_transparent`: FetchBucket (with the repaired revalidation of a cache hit)
+    answers exactly "the bucket the meta names exists in the transaction's view" – the view that
+    includes the transaction's own pending creates and deletes –, hands out the handle navigation
+    would build, and keeps the cache invariant. -/
+theorem fetchBucket_cache_transparent {tx : Tx} {d : Spec.KV.DB} (htx : TxRel tx d) {cache : AMap.T Nat Bucket}
+    {sm : AMap.T Nat Path} (hci : CacheInv tx cache sm) {m : Nat} {p : Path} (hm : AMap.get sm m = some p)
+    {b : Bucket} (hb : pureNav p = some b) (hba : b.IsAt p) :
+    (tx.fetchCached cache m b.metaPaths).1 = (if d.has p then some b else none) ∧
+    CacheInv tx (tx.fetchCached cache m b.metaPaths).2 sm :=
+  fetchCached_spec htx hci hm hb hba
+
+example (tx : Tx) (sm : AMap.T Nat Path) : CacheInv tx [] sm := CacheInv.nil tx sm
+
+/-- `kv_refines_x`: THE property for histories that also keep bucket handles and BucketMeta objects
+    across operations (`keep`, `getMeta`, `fetch` through the per-transaction cache, `via` = any data
+    operation through a kept handle, also after the bucket or an ancestor was deleted and created
+    again in the same transaction) and use a read transaction and its bucket handles after its
+    Rollback (`dead`, `deadVia`): every observable result of the model equals the specification's,
+    up to the first operation that WRITES through the handle of a bucket that does not exist in
+    the write transaction's view (out of contract); READS through such a handle find an empty bucket
+    and nothing below it (`Spec.KV.staleRead`). -/
+theorem kv_refines_x (ops : List OpX) : RunsAgreeX ops (Model.KV.runX {} ops) (Spec.KV.runX {} ops) :=
+  runX_sim deleteSpec ops {} {} SysRelX.init
+
+/-- one step of the extended system from any pair of related states -/
+theorem kv_stepX_refines {m : SysX} {σ : Spec.KV.SysX} (h : SysRelX m σ) (op : OpX) :
+    (σ.step op).2 = .outOfContract ∨
+    (SysRelX (m.step op).1 (σ.step op).1 ∧ ObsAgreeX op (m.step op).2 (σ.step op).2) :=
+  stepX_sim deleteSpec h op
+
+example : SysRelX {} {} := SysRelX.init
+
+/-- the extended model run on a history of plain operations IS the model of `kv_refines` -/
+theorem kv_x_conservative (ops : List Op) : Model.KV.runX {} (ops.map .base) = Model.KV.run {} ops :=
+  runX_base ops {}
+
+/-- a history inside the contract (no `outOfContract`): meta, fetch (miss, hit), delete, fetch again
+    (the cached handle is NOT handed out: D44), re-create, fetch, and operations through the handle
+    kept from before the delete. -/
+example :
+    let a : Bytes := [97]
+    let b : Bytes := [98]
+    let ops : List OpX := [
+      .base .beginW, .base (.create .w [a]), .base (.create .w [a, b]), .base (.put .w [a, b] [1] [2]),
+      .getMeta .w 0 [a, b], .base .commit, .base .beginW,
+      .fetch .w 0 0, .fetch .w 1 0, .via 0 (.get .w [] [1]),
+      .base (.delb .w [a, b]), .fetch .w 2 0, .via 0 (.get .w [] [1]),
+      .base (.create .w [a, b]), .fetch .w 2 0, .via 0 (.put .w [] [3] [4]), .via 2 (.get .w [] [3]),
+      .base .commit, .base .beginR, .keep .r 0 [a, b], .base .endR, .deadVia 0 (.get .r [] [3]), .dead (.has .r [a])]
+    Spec.KV.runX {} ops =
+      [.ok, .ok, .ok, .ok, .ok, .ok, .ok,
+       .bool true, .bool true, .val (some [2]),
+       .ok, .bool false, .val none,
+       .ok, .bool true, .ok, .val (some [4]),
+       .ok, .ok, .bool true, .ok, .err .released, .bool false] ∧
+    Model.KV.runX {} ops =
+      [.ok, .ok, .ok, .ok, .ok, .ok, .ok,
+       .bool true, .bool true, .val (some [2]),
+       .ok, .bool false, .val none,
+       .ok, .bool true, .ok, .val (some [4]),
+       .ok, .ok, .bool true, .ok, .err .released, .bool false] := by
+  decide +kernel
+
+/-- the contract is NECESSARY: a write through the handle of a deleted bucket is accepted by the
+    driver and stores an orphan entry, which a later bucket of the same path inherits – the model
+    (and the real driver: corpus/kv/C11-kept-handles.ops, class via-stale-write) shows `6b ↦ 01` in
+    the new bucket, where any specification by buckets and maps has an empty bucket. -/
+example :
+    let a : Bytes := [97]
+    let b : Bytes := [98]
+    let ops : List OpX := [
+      .base .beginW, .base (.create .w [a]), .base (.create .w [a, b]), .keep .w 0 [a, b],
+      .base (.delb .w [a, b]), .via 0 (.put .w [] [0x6b] [1]),
+      .base (.create .w [a, b]), .base (.pfx .w [a, b] [])]
+    (Spec.KV.runX {} ops).getD 5 .ok = .outOfContract ∧
+    (Model.KV.runX {} ops).getLast? = some (.entries [([0x6b], [1])]) := by
+  decide +kernel
+
+/-! ## 8. round 4 — the iterator inside a write transaction against the read-your-writes view -/
+
+/-- `iter_write_spec`: EXACTLY what a fresh iterator inside a write transaction yields when drained:
+    the limit NewIterator computes is never nil, and the yielded entries are `iterWEntries` = the
+    committed entries of `[start', limit')` followed by the batch's net puts with key in
+    `[start', limit')` – no committed entry is masked by a delete of the transaction, none is
+    replaced by the value the transaction put (the new value comes later, as a second entry). -/
+theorem iter_write_spec (tx : Tx) (hw : tx.readOnly = false) (b : Bucket) (st l : Bytes) :
+    ∃ lim, (b.iterBounds st l).2 = some lim ∧
+      runScript b (b.newIterator tx st l) [.all] =
+        (iterWEntries tx (b.iterBounds st l).1 lim).map (yielded b.pathLen) ++ [(false, none, none)] := by
+  obtain ⟨lim, hl⟩ := iterBounds_limit_some b st l
+  refine ⟨lim, hl, ?_⟩
+  have h := Model.KV.iter_write_shape tx hw b st l
+  simp only [hl] at h
+  rw [h, iterWEntries, List.map_append]
+
+/-- `iter_write_superset` (always): every entry of the read-your-writes view (the store the
+    transaction would commit) in the range has its key among the yielded entries – the iterator
+    never misses a key; in particular "is there any entry under this prefix" (ExistCreditFromTx)
+    has no false negative. -/
+theorem iter_write_superset {tx : Tx} (h : tx.Inv) (hw : tx.readOnly = false) (s' lim : Bytes) :
+    ∀ e ∈ tx.commit.range s' (some lim), ∃ e' ∈ iterWEntries tx s' lim, e'.1 = e.1 :=
+  iterW_superset h hw s' lim
+
+/-- `iter_write_ryw`: the sufficient condition under which the iterator DOES show the
+    read-your-writes view: if the transaction's batch has neither deleted nor (re-)put any COMMITTED
+    key of the range (`RangeUntouched`; keys it created itself may have been put, deleted, re-put at
+    will), the yielded entries, sorted by key, are exactly the entries a read-only iterator finds in
+    the store the transaction would commit – each once. -/
+theorem iter_write_ryw {tx : Tx} (h : tx.Inv) (hw : tx.readOnly = false) (b : Bucket) (st l lim : Bytes)
+    (hl : (b.iterBounds st l).2 = some lim) (hu : RangeUntouched tx (b.iterBounds st l).1 lim) :
+    sortBy (fun a b : Bytes × Bytes => blt a.1 b.1) (iterWEntries tx (b.iterBounds st l).1 lim) =
+      (b.newIterator tx.roView st l).rng := by
+  rw [iterW_ryw h hw _ _ hu]
+  show _ = tx.commit.range (b.iterBounds st l).1 (b.iterBounds st l).2
+  rw [hl]
+
+/-- `iter_write_exists` – the exact answer of "is there an entry in this range" asked through a
+    fresh iterator inside a write transaction (`ExistCreditFromTx`: `NewIterator(BytesPrefix(hash))`,
+    one `Next()`): it is `true` iff the read-your-writes view has an entry in the range, OR the
+    committed range is non-empty and this transaction has deleted every key of it (the only
+    deviation: a false positive; never a false negative). -/
+theorem iter_write_exists {tx : Tx} (h : tx.Inv) (hw : tx.readOnly = false) (b : Bucket) (st l lim : Bytes)
+    (hl : (b.iterBounds st l).2 = some lim) :
+    ((b.newIterator tx st l).next).2 = true ↔
+      ((b.newIterator tx.roView st l).rng ≠ [] ∨
+       (tx.db.range (b.iterBounds st l).1 (some lim) ≠ [] ∧
+        ∀ e ∈ tx.db.range (b.iterBounds st l).1 (some lim), (tx.b.get e.1).2 = true)) := by
+  rw [first_next_iff tx hw b st l lim hl, iterW_nonempty_iff h hw]
+  show _ ↔ (tx.commit.range (b.iterBounds st l).1 (b.iterBounds st l).2 ≠ [] ∨ _)
+  rw [hl]
+
+-- both branches occur: committed 1_a_a; (1) untouched: the view has it; (2) the transaction deleted it: false positive
+example :
+    let b : Bucket := { name := [97], path := [49, 95, 97], depth := 1 }
+    let tx1 : Tx := { readOnly := false, db := [([49, 95, 97, 95, 97], [1])], b := {} }
+    let tx2 : Tx := { readOnly := false, db := [([49, 95, 97, 95, 97], [1])], b := Batch.replay [.del [49, 95, 97, 95, 97]] }
+    ((b.newIterator tx1 [] []).next).2 = true ∧ (b.newIterator tx1.roView [] []).rng ≠ [] ∧
+    ((b.newIterator tx2 [] []).next).2 = true ∧ (b.newIterator tx2.roView [] []).rng = [] ∧ b.getByPrefix tx2 [] = [] := by
+  decide
+
+/-- two ways to meet the condition: nothing written yet (the wallet's removal step starts with such
+    an iteration), or nothing written to a key of the range (writes to other buckets only) -/
+theorem iter_write_ryw_conditions :
+    (∀ (tx : Tx) (s' lim : Bytes), tx.b = {} → RangeUntouched tx s' lim) ∧
+    (∀ (tx : Tx) (s' lim : Bytes),
+      (∀ k, ble s' k = true → blt k lim = true → tx.b.puts.get k = none ∧ tx.b.deletes.get k = none) →
+      RangeUntouched tx s' lim) :=
+  ⟨fun _ s' lim hb => rangeUntouched_of_empty hb s' lim, fun _ s' lim ho => rangeUntouched_of_outside s' lim ho⟩
+
+/-- … and the shape the wallet's removal step has when it iterates the credits: `NewIterator(nil)` over
+    a whole bucket `p` in a transaction that has so far written only to OTHER buckets (or to the
+    bucket index) – whatever it put, deleted or overwrote there. -/
+theorem iter_write_ryw_other_buckets {tx : Tx} {b : Bucket} {p : Path} (hb : b.IsAt p) (lim : Bytes)
+    (hl : (b.iterBounds [] []).2 = some lim)
+    (hk : ∀ k, ((tx.b.puts.get k).isSome = true ∨ (tx.b.deletes.get k).isSome = true) →
+      (∃ q kk, NoSep q ∧ q ≠ p ∧ k = dataKey q kk) ∨ ∃ s, k = indexKey s) :
+    RangeUntouched tx (b.iterBounds [] []).1 lim :=
+  rangeUntouched_other_buckets hb lim hl hk
+
+-- instance: bucket `a`; the batch overwrote and deleted keys of bucket `b` only
+example :
+    let tx : Tx := { readOnly := false, db := [([49, 95, 97, 95, 97], [1]), ([49, 95, 98, 95, 97], [2])],
+                     b := Batch.replay [.put [49, 95, 98, 95, 97] [3], .del [49, 95, 98, 95, 97]] }
+    ∀ k, ((tx.b.puts.get k).isSome = true ∨ (tx.b.deletes.get k).isSome = true) →
+      (∃ q kk, NoSep q ∧ q ≠ [[97]] ∧ k = dataKey q kk) ∨ ∃ s, k = indexKey s := by
+  intro tx k hk
+  left
+  have hkey : k = [49, 95, 98, 95, 97] := by
+    have h1 : tx.b.puts = [([49, 95, 98, 95, 97], ([3], 1))] := by decide
+    have h2 : tx.b.deletes = [([49, 95, 98, 95, 97], 2)] := by decide
+    rw [h1, h2] at hk
+    simp only [SMap.get] at hk
+    by_cases hne : k = [49, 95, 98, 95, 97]
+    · exact hne
+    · simp [hne] at hk
+  refine ⟨[[98]], [97], by intro x hx; simp at hx; subst hx; decide, by decide, ?_⟩
+  rw [hkey]; decide +kernel
+
+-- the condition holds in a non-trivial transaction: committed 1_a_a, 1_a_c; the transaction puts the new key 1_a_b,
+-- deletes it, puts it again, and writes to bucket 1_b
+example :
+    let tx : Tx := { readOnly := false, db := [([49, 95, 97, 95, 97], [1]), ([49, 95, 97, 95, 99], [3])],
+                     b := Batch.replay [.put [49, 95, 97, 95, 98] [2], .del [49, 95, 97, 95, 98],
+                                        .put [49, 95, 97, 95, 98] [4], .put [49, 95, 98, 95, 97] [9]] }
+    RangeUntouched tx [49, 95, 97, 95] [49, 95, 97, 96] ∧ tx.Inv := by
+  refine ⟨?_, ⟨by simp only [SMap.Sorted]; decide, Batch.inv_replay _⟩⟩
+  unfold RangeUntouched
+  decide
+
+/-- the condition is NECESSARY in both halves: after an OVERRIDE of a committed key the iterator
+    yields the key twice (old value first), after a DELETE it still yields the key -/
+example :
+    let b : Bucket := { name := [97], path := [49, 95, 97], depth := 1 }
+    let tx : Tx := { readOnly := false, db := [([49, 95, 97, 95, 97], [1])],
+                     b := Batch.replay [.put [49, 95, 97, 95, 97] [2]] }
+    runScript b (b.newIterator tx [] []) [.all] =
+      [(true, some [97], some [1]), (true, some [97], some [2]), (false, none, none)] ∧
+    b.get tx [97] = some [2] := by
+  decide
 
 end MW.Props.C11
